@@ -846,8 +846,9 @@ func (in *interp) constCond(fr *frame, e ast.Expr) (bool, bool) {
 				return (a.s == b.s) == (x.Op == token.EQL), true
 			}
 			if (a.k == avKey || a.k == avStr && a.isConst) && (b.k == avKey || b.k == avStr && b.isConst) && known(a) && known(b) {
-				eq := strings.Join(toToks(a), "/") == strings.Join(toToks(b), "/")
-				return eq == (x.Op == token.EQL), true
+				if eq, decided := sameTokens(toToks(a), toToks(b)); decided {
+					return eq == (x.Op == token.EQL), true
+				}
 			}
 			return false, false
 		}
@@ -1139,8 +1140,9 @@ func (in *interp) eval(fr *frame, e ast.Expr) *aval {
 			}
 		case token.EQL, token.NEQ:
 			if (a.k == avKey || a.k == avStr) && (b.k == avKey || b.k == avStr) && known(a) && known(b) {
-				eq := strings.Join(toToks(a), "/") == strings.Join(toToks(b), "/")
-				return &aval{k: avBool, b: eq == (x.Op == token.EQL)}
+				if eq, decided := sameTokens(toToks(a), toToks(b)); decided {
+					return &aval{k: avBool, b: eq == (x.Op == token.EQL)}
+				}
 			}
 		}
 		return unknown("binary")
@@ -1152,6 +1154,36 @@ func (in *interp) eval(fr *frame, e ast.Expr) *aval {
 		return in.eval(fr, x.X)
 	}
 	return unknown(fmt.Sprintf("%T", e))
+}
+
+// sameTokens compares two token lists that may contain symbolic tokens ({esc:Ln}, {raw:Ln}, {idx:Ln}): equal
+// when identical; different when a constant position differs or the lengths differ (no raw token, which could
+// hide a '/'); undecided when a symbolic token faces a constant or another symbol (a name of the document can
+// spell any constant).
+func sameTokens(a, b []string) (eq, decided bool) {
+	sym := func(t string) bool { return strings.HasPrefix(t, "{") }
+	for _, t := range append(append([]string{}, a...), b...) {
+		if strings.HasPrefix(t, "{raw:") && len(a) != len(b) {
+			return false, false
+		}
+	}
+	if len(a) != len(b) {
+		return false, true
+	}
+	maybe := false
+	for i := range a {
+		switch {
+		case a[i] == b[i]:
+		case sym(a[i]) || sym(b[i]):
+			maybe = true
+		default:
+			return false, true
+		}
+	}
+	if maybe {
+		return false, false
+	}
+	return true, true
 }
 
 func known(v *aval) bool {
@@ -1229,6 +1261,23 @@ func (in *interp) evalCall(fr *frame, call *ast.CallExpr) *aval {
 			toks = append(toks, toToks(a)...)
 		}
 		return &aval{k: avKey, toks: toks}
+	case "path.Base", "path.Dir":
+		if len(args) == 1 && (args[0].k == avKey || args[0].k == avStr && args[0].isConst) && known(args[0]) && !args[0].hash {
+			toks := toToks(args[0])
+			raw := false
+			for _, t := range toks {
+				if strings.HasPrefix(t, "{raw:") {
+					raw = true // may contain '/'
+				}
+			}
+			if len(toks) > 0 && !raw {
+				if full == "path.Base" {
+					return &aval{k: avKey, toks: []string{toks[len(toks)-1]}}
+				}
+				return &aval{k: avKey, toks: append([]string{}, toks[:len(toks)-1]...)}
+			}
+		}
+		return unknown(full)
 	case "github.com/go-openapi/jsonpointer.Escape":
 		a := args[0]
 		if a.k == avStr && a.isConst {
